@@ -40,10 +40,11 @@ const (
 	eWedgeTimeout // writes stop draining until the library's write timeout fires
 	eSilence      // inbound stall: the linktest must drop the link
 	eCloseOpen    // application Close, then Open
+	eWedgeClose   // writes stop draining, then application Close (its courtesy Separate meets the closed window), then Open
 	nEnds
 )
 
-var endNames = []string{"fin", "rst", "wedge+rst", "wedge+write-timeout", "silence+linktest", "close+open"}
+var endNames = []string{"fin", "rst", "wedge+rst", "wedge+write-timeout", "silence+linktest", "close+open", "wedge+close+open"}
 
 type genPlan struct {
 	End      int
@@ -54,17 +55,17 @@ type genPlan struct {
 }
 
 type scenario struct {
-	Active   bool
-	Equip    bool
-	T3       time.Duration
-	T6       time.Duration
-	Backoff  time.Duration
-	WriteTO  time.Duration
-	Linktest time.Duration
-	Queue    int
-	Plans    []genPlan
-	Senders  int
-	PerSend  int
+	Active      bool
+	Equip       bool
+	T3          time.Duration
+	T6          time.Duration
+	Backoff     time.Duration
+	WriteTO     time.Duration
+	Linktest    time.Duration
+	Queue       int
+	Plans       []genPlan
+	Senders     int
+	PerSend     int
 	ReplyDelays []time.Duration
 }
 
@@ -88,25 +89,25 @@ type harness struct {
 	r  *rig.Rig
 	sc scenario
 
-	calls    map[string]*call
-	order    []*call
-	nDone    int
-	stop     bool
-	gens     []*refhsms.Conn
-	selAt    map[int]time.Duration
-	ended    map[int]bool
-	replayed map[uint32]string // sys -> stale token sent on a later generation
-	open     map[int][]refhsms.RxFrame // W primaries seen per generation
-	stallFor time.Duration
-	closing  bool
-	finished bool
+	calls          map[string]*call
+	order          []*call
+	nDone          int
+	stop           bool
+	gens           []*refhsms.Conn
+	selAt          map[int]time.Duration
+	ended          map[int]bool
+	replayed       map[uint32]string         // sys -> stale token sent on a later generation
+	open           map[int][]refhsms.RxFrame // W primaries seen per generation
+	stallFor       time.Duration
+	closing        bool
+	finished       bool
 	lastGenPlanned int
-	whens    []*when
-	appCloseAt map[int]time.Duration
-	randomStalls bool
-	stalls   [][2]time.Duration
-	maxStall time.Duration
-	inCall   map[string]bool
+	whens          []*when
+	appCloseAt     map[int]time.Duration
+	randomStalls   bool
+	stalls         [][2]time.Duration
+	maxStall       time.Duration
+	inCall         map[string]bool
 }
 
 type when struct {
@@ -115,7 +116,9 @@ type when struct {
 	done bool
 }
 
-func (h *harness) when(cond func() bool, then func()) { h.whens = append(h.whens, &when{cond: cond, then: then}) }
+func (h *harness) when(cond func() bool, then func()) {
+	h.whens = append(h.whens, &when{cond: cond, then: then})
+}
 
 func (h *harness) poll() {
 	for i := 0; i < len(h.whens); i++ {
@@ -208,7 +211,7 @@ func genScenario(t *core.Tape, stalls bool) scenario {
 	n := 1 + t.Choose("scn", 4)
 	for i := 0; i < n; i++ {
 		p := genPlan{}
-		p.End = t.Weighted("scn", 3, 3, 3, 1, 1, 2)
+		p.End = t.Weighted("scn", 3, 3, 3, 1, 1, 2, 2)
 		if p.End == eSilence && sc.Linktest == 0 {
 			p.End = eRST
 		}
@@ -238,6 +241,9 @@ var noSuppress = false
 func Build(config string) core.BuildFunc {
 	if config == "secs1" {
 		return buildSECS1()
+	}
+	if config == "secs1-scripted" {
+		return buildSECS1Scripted()
 	}
 
 	return func(w *core.World) *core.Scenario {
@@ -406,6 +412,24 @@ func (h *harness) endGen(k, n int, c *refhsms.Conn, p genPlan) {
 	case eSilence:
 		w.Fault("stall-inbound")
 		c.L.Stall(true, 0)
+	case eWedgeClose:
+		w.Fault("sndfull")
+		c.L.SetCap(40)
+		c.L.Stall(false, 0)
+		w.After(p.WedgeFor, "wedge-close", func() {
+			w.Fault("app-close")
+			w.Go("closer", func() {
+				h.closing = true
+				h.appCloseAt[n] = w.Now()
+				_ = r.C.Close()
+				c.L.RST() // the stalled peer end gives the dead socket up
+				core.Sleep(time.Duration(w.T.Choose("app", 20)) * 10 * time.Millisecond)
+				h.closing = false
+				if err := r.C.Open(context.Background(), hsms.OpenBackground); err != nil {
+					w.Fail("REOPEN", "Open after Close: %v", err)
+				}
+			})
+		})
 	case eCloseOpen:
 		w.Fault("app-close")
 		w.Go("closer", func() {
@@ -610,6 +634,25 @@ func (h *harness) final(reason string) {
 			w.Fail("WRONG_REPLY", "%s (%s) returned reply %q; its primary was seen on generation %d (want %q)", kindNames[c.Kind], c.ID, c.Reply, gen, want)
 
 			return
+		}
+	}
+	// ---- (3a) a generation ended by the application's Close: the teardown starts within the bound of
+	// the courtesy Separate (a 500 ms write bound when the peer's window is closed), whatever the
+	// write timeout — every send still waiting is released then, not a write timeout later
+	for n, at := range h.appCloseAt {
+		tc := h.closedAt(n)
+		if tc < 0 {
+			w.Fail("LATE", "the application called Close at %v on generation %d; its socket was never closed", at, n)
+
+			return
+		}
+		if tc > at+510*time.Millisecond {
+			w.Fail("LATE", "the application called Close at %v on generation %d (peer window closed); the generation's socket was closed, and the sends still waiting released, only at %v — the courtesy Separate is bounded by 500 ms (write timeout %v)", at, n, tc, h.sc.WriteTO)
+
+			return
+		}
+		if tc > at+100*time.Millisecond {
+			w.Probe("close_spent_the_farewell_bound")
 		}
 	}
 	// ---- (3) promptness and error class once the generation's socket is closed
